@@ -107,6 +107,22 @@ def build(cfg, sels, seed=0):
             row["type"] = "select_one_from_file gj.geojson"
             s.update(inst="gj", vref="id", lref="title")
             ext("gj", "jr://file/gj.geojson")
+        elif v == "csv_rand":
+            row.update(type="select_one_from_file cr.csv", parameters="randomize=true seed=5")
+            s.update(inst="cr", wrap="rand", seed="5")
+            ext("cr", "jr://file-csv/cr.csv")
+        elif v == "geojson_rand":
+            row.update(type="select_one_from_file gr.geojson", parameters="randomize=true")
+            s.update(inst="gr", wrap="rand", vref="id", lref="title")
+            ext("gr", "jr://file/gr.geojson")
+        elif v == "geojson_v":
+            row.update(type="select_multiple_from_file gv.geojson", parameters="value=vv")
+            s.update(inst="gv", vref="vv", lref="title")
+            ext("gv", "jr://file/gv.geojson")
+        elif v == "geojson_l":
+            row.update(type="select_one_from_file gl.geojson", parameters="label=ll")
+            s.update(inst="gl", vref="id", lref="ll")
+            ext("gl", "jr://file/gl.geojson")
         elif v == "external":
             row.update(type="select_one_external X", choice_filter="state=${st}")
             s.update(kind="query", inst="X", filter=norm_src_expr("state=${st}"))
